@@ -7,4 +7,5 @@ CONSTANTS
   Lists <- MCLists
 INVARIANT WalkIsOwner
 INVARIANT MeasureExact
+INVARIANT FoldIsLoop
 CHECK_DEADLOCK FALSE
